@@ -363,6 +363,30 @@ func (r *rec) precompiles(w *world.World, ctx sdk.Context) {
 			for i := 0; i <= len(data); i++ {
 				call(n, fmt.Sprintf("calldata truncated to %d bytes", i), p.addr, data[:i])
 			}
+			// every text argument (chain names, memos) and every bytes32 target replaced by each name a chain or target has
+			// ever gone by, and by the hostile strings - packed properly, so that the method body is reached
+			texts := append([]string{"gravity", "chain/gravity", "chain/eth", "chain/bsc", "chain/tron", "chain/foo", "module/evm", "erc20", "ibc/0/px", "px/transfer/channel-0", "foo", "ETH", "eth ", "tron", "bsc", "layer2"}, hostileStrings...)
+			for i, in := range p.abi.Methods[n].Inputs {
+				kind := in.Type.String()
+				if kind != "string" && kind != "bytes32" {
+					continue
+				}
+				for _, t := range texts {
+					alt := append([]interface{}{}, args...)
+					if kind == "string" {
+						alt[i] = t
+					} else {
+						var b [32]byte
+						copy(b[:], t)
+						alt[i] = b
+					}
+					d, err := p.abi.Pack(n, alt...)
+					if err != nil {
+						continue
+					}
+					call(n, fmt.Sprintf("argument %d (%s) := %.40q", i, in.Name, t), p.addr, d)
+				}
+			}
 			// every <=2-word deviation of the argument words
 			nw := (len(data) - 4) / 32
 			for i := 0; i < nw; i++ {
